@@ -64,7 +64,7 @@ OPS = ['select', 'apply', 'assign', 'filter', 'batch', 'sink']
 INVALID_KINDS = ['dup_assign_prev', 'dup_assign_same_call', 'dup_output_same_call', 'self_mixed',
                  'assign_no_keys', 'fbs_without_bs', 'negative_size',
                  'kwargs_without_fn', 'op_after_aggregate', 'dup_slice_name',
-                 'chain_dup_name', 'chain_dup_agg_keys']
+                 'chain_dup_name', 'chain_dup_agg_keys', 'fuse_ops_behind_aggregate']
 REQUIRED = (['stream_checks', 'input_identity_checks', 'sink_checks',
              'rebatch_checks', 'selftest_checks', 'invalid_build_checks',
              'invalid_twin_checks', 'trigger_chains', 'array_twin_checks']
@@ -386,6 +386,7 @@ VARIANTS = {
     'dup_slice_name': ['single', 'cross', 'named'],
     'chain_dup_name': ['plain', 'with_agg'],
     'chain_dup_agg_keys': ['chained', 'fused', 'add_aggregate'],
+    'fuse_ops_behind_aggregate': ['unnamed', 'same_name', 'select_child'],
 }
 
 
@@ -528,6 +529,14 @@ def build_invalid(case, valid):
           T.new(name='A').agg(_Agg(), output_keys=other))
     else:
       t = T().agg(_Agg(), output_keys='m').add_aggregate(fn=_Agg(), output_keys=other)
+  elif kind == 'fuse_ops_behind_aggregate':
+    # chain() fuses transforms of the same name: the operators of the child would
+    # end up in front of the aggregation of the parent.
+    n1 = '' if var == 'unnamed' else 'A'
+    n2 = 'B' if valid else n1
+    parent = T.new(name=n1).apply(_f).agg(_Agg(), output_keys='m')
+    child = T.new(name=n2).select(a) if var == 'select_child' else T.new(name=n2).apply(_f)
+    t = parent.chain(child)
   else:
     raise ValueError(kind)
   t.make()
